@@ -192,8 +192,20 @@ def orchReplay (s : Kopf.C19.Orch.State) : List Kopf.C19.Orch.Label → List Jso
       | none => [Json.str "disabled"]
       | some s' => Json.arr (s'.ens.keys.map keyJ).toArray :: orchReplay s' rest
 
+/-- where the model's orchestrator is after a whole trace: "waiting" | "notified" | "stopping" | "spawning" | "disabled" -/
+def orchEnd (s : Kopf.C19.Orch.State) : List Kopf.C19.Orch.Label → String
+  | [] => match s.pc with
+      | .waiting => "waiting" | .notified => "notified" | .stopping => "stopping" | .spawning => "spawning"
+  | l :: rest =>
+      match Kopf.C19.Orch.step s l with
+      | none => "disabled"
+      | some s' => orchEnd s' rest
+
 def handle : DrvHandler := fun op args =>
   match op, args with
+  | "C19.orchEnd", [labels] => do
+      let ls ← (← jArr? labels).mapM labelOf?
+      some (ok (.str (orchEnd (Kopf.C19.Orch.init true) ls)))
   | "C19.orch", [labels] => do
       let ls ← (← jArr? labels).mapM labelOf?
       some (ok (.arr (orchReplay (Kopf.C19.Orch.init true) ls).toArray))
